@@ -867,6 +867,8 @@ static Node *declaration(Token **rest, Token *tok, Type *basety, VarAttr *attr) 
       // static local variable
       Obj *var = new_anon_gvar(ty);
       var->is_tls = attr->is_tls;
+      if (attr->align)
+        var->align = attr->align;
       push_scope(get_ident(ty->name))->var = var;
       if (equal(tok, "="))
         gvar_initializer(&tok, tok->next, var);
